@@ -236,6 +236,9 @@ class SOpsLoop(_AI.SAioLoop):
             self.callbacks.append((fd, args[1]))
             st.event(name, *args)
             return None
+        if name == "stop" and not args:
+            st.event("stop")
+            return None
         if name in ("remove_reader", "remove_handler") and len(args) == 1:
             fd = args[0]
             oreg = self.reg
@@ -392,3 +395,206 @@ class aio_remove_watch_file:
         k = V.SInt(z3.Int("anyfd"))
         yield "others-untouched", mk_bool(z3.ForAll([k.e], V._zb(implies(neg(eq(k, a.handle)), eq(s._loop.reg(k), old._loop.reg(k))))))
         yield "idle-bookkeeping-untouched", idle_bookkeeping_untouched(old, s)
+
+
+# ------------------------------------------------------------------------------------------------------------- tornado
+
+try:
+    from urwid.event_loop import tornado_loop as _tol
+except ImportError:  # pragma: no cover  (tornado is optional)
+    _tol = None
+
+if _tol is not None:
+    from tornado import ioloop as _ioloop
+
+    TOR = Custom(_fresh_ops(_tol.TornadoEventLoop, tornado=True), "TornadoEventLoop")
+    TOR.fields = {}
+    _TOR_INLINE = ("TornadoEventLoop._also_call_idle", "TornadoEventLoop.handle_exit")
+    # the closures run by the IOLoop call handle_exit's wrapper: its body is executed here (its own contract, in
+    # contracts/C13_adapter_run.py, speaks about the events of that body, which a call site does not replay)
+    _RUN_WRAPPER = {TOL + "TornadoEventLoop.handle_exit.<wrapper>": None}
+
+    def _stops_like_handle_exit(a):
+        """The duty of handle_exit (contracts/C13_adapter_run.py `_tor_wrapper_claims`) seen from the closure that uses it."""
+        st = cur()
+        s = a.g_self
+        raised = st.ghost.get("callback_raised")
+        stops, removes = _AR._ev("sched.stop") + [ev for ev in st.trace if ev[0] == "stop"], [ev for ev in st.trace if ev[0] == "remove_timeout"]
+        yield "the-callback-ran-exactly-once", count_ev(st.trace, "callback") == 1
+        if raised is None:
+            yield "a-callback-that-returns-stops-nothing", both(not stops, not removes, s._exc is st.ghost["exc_at_entry"], s._idle_asyncio_handle is st.ghost["handle_at_entry"])
+            return
+        yield "an-exception-of-the-callback-stops-the-loop", len(stops) == 1
+        yield "a-pending-idle-pass-is-withdrawn-and-forgotten", both(
+            neg(_AR._has(s._idle_asyncio_handle)), s.ghost_idle_calls == 0,
+            implies(_AR._has(st.ghost["handle_at_entry"]), len(removes) == 1), implies(neg(_AR._has(st.ghost["handle_at_entry"])), not removes))
+        if issubclass(raised.cls, ExitMainLoop):
+            yield "ExitMainLoop-is-not-kept", s._exc is st.ghost["exc_at_entry"]
+        else:
+            yield "any-other-exception-is-kept-for-run-the-very-object", s._exc is raised
+
+    def watch_handles_below_counter(s):
+        """Class invariant of the watch bookkeeping: handles are issued increasingly, so stored ones are not above the counter."""
+        k = z3.Int("qwh")
+        return mk_bool(z3.ForAll([k], z3.Implies(V._zb(s._watch_handles.has(V.SInt(k))), k <= V._z(s._max_watch_handle))))
+
+    def tor_inv(s):
+        return both(_AI.inv(s), watch_handles_below_counter(s))
+
+    def tor_rest_untouched(old, s, *but):
+        out = [idle_bookkeeping_untouched(old, s), s._exc is old._exc]
+        if "_pending_alarms" not in but:
+            out.append(both(s._pending_alarms.has is old._pending_alarms.has, s._pending_alarms.val is old._pending_alarms.val))
+        if "_watch_handles" not in but:
+            out.append(both(s._watch_handles.has is old._watch_handles.has, s._watch_handles.val is old._watch_handles.val, s._max_watch_handle == old._max_watch_handle))
+        if "_loop" not in but:
+            out.append(s._loop.reg is old._loop.reg)
+        return both(*out)
+
+    @contract(TOL + "TornadoEventLoop.alarm", property="C13", replayable=False)
+    class tor_alarm:
+        self_shape = TOR
+        params = dict(seconds=Int, callback=Opaque("LoopCallback"))
+        inline = _TOR_INLINE
+        setup = staticmethod(_setup)
+        invariant = staticmethod(tor_inv)
+        notes = SCHEDULER_NOTES
+
+        def ensures(old, s, a, result):
+            st = cur()
+            timers = [ev for ev in st.trace if ev[0] == "timer"]
+            times = [ev for ev in st.trace if ev[0] == "time"]
+            yield "one-timer-asked-of-the-ioloop-and-nothing-else", len(timers) == 1 and len(times) == 1 and len(_sched_events(st.trace)) == 2
+            if len(timers) != 1 or len(times) != 1:
+                return
+            _t, kind, when, fn, h = timers[0]
+            yield "due-that-many-seconds-from-now", both(kind == "add_timeout", eq(when, times[0][1] + a.seconds))
+            yield "running-the-callback-inside-handle-exit-wrapped-so-that-the-idle-callbacks-follow-it", is_idle_wrapper_of(
+                fn, s, lambda w: is_closure(w, "TornadoEventLoop.alarm.<wrapped>", self=s, callback=a.callback, handle=h))
+            yield "the-handle-is-that-timer-not-removed", both(result is h, neg(_cancelled(st)(result)))
+            yield "recorded-as-pending", both(s._pending_alarms.has(result), same_map(s._pending_alarms, old._pending_alarms, but=result))
+            yield "nothing-else-touched", tor_rest_untouched(old, s, "_pending_alarms")
+
+    @contract(TOL + "TornadoEventLoop.alarm.<wrapped>", property="C13", replayable=False)
+    class tor_alarm_wrapped:
+        """What the IOLoop runs when the alarm is due (inside `_also_call_idle.<wrapper>`, contracts/C13_asyncio_idle.py):
+        free variables self / callback / handle universally quantified."""
+        globals_ = dict(self=TOR, callback=Opaque("LoopCallback"), handle=Opaque("TimerHandle"))
+        inline = _TOR_INLINE
+        callback_havoc = staticmethod(_AR._tor_havoc)
+        contract_overrides = _RUN_WRAPPER
+        raises = ()  # nothing an alarm callback raises (ExitMainLoop, Exception) leaves it: handle_exit keeps it for run()
+        notes = SCHEDULER_NOTES
+
+        def setup(st, self_obj, vals):
+            _setup(st, vals["g_self"], vals)
+            _AR._setup(st, vals["g_self"], vals)
+
+        def requires(a):
+            return tor_inv(a.g_self)
+
+        def ensures(a, result):
+            s = a.g_self
+            yield "the-alarm-is-no-longer-pending-so-a-later-removal-reports-failure", neg(s._pending_alarms.has(a.g_handle))
+            yield from _stops_like_handle_exit(a)
+            yield "class-invariant", tor_inv(s)
+
+    @contract(TOL + "TornadoEventLoop.remove_alarm", property="C13", replayable=False)
+    class tor_remove_alarm:
+        self_shape = TOR
+        params = dict(handle=Opaque("TimerHandle"))
+        setup = staticmethod(_setup)
+        invariant = staticmethod(tor_inv)
+        notes = SCHEDULER_NOTES
+
+        def requires(s, a):
+            # an alarm handle: the timer of the pending idle pass is private to the loop and never handed out
+            return neg(eq(s._idle_asyncio_handle, a.handle))
+
+        def ensures(old, s, a, result):
+            st = cur()
+            rms = [ev for ev in st.trace if ev[0] == "remove_timeout"]
+            yield "that-very-timer-is-withdrawn-once-so-it-never-runs", both(len(rms) == 1 and len(_sched_events(st.trace)) == 1, rms[0][1] is a.handle if rms else False, _cancelled(st)(a.handle))
+            yield "reports-success-exactly-if-the-alarm-was-pending", eq(result, old._pending_alarms.has(a.handle))
+            yield "no-longer-pending-so-removing-it-again-reports-failure", neg(s._pending_alarms.has(a.handle))
+            yield "other-alarms-untouched", same_map(s._pending_alarms, old._pending_alarms, but=a.handle)
+            yield "nothing-else-touched", tor_rest_untouched(old, s, "_pending_alarms")
+
+    @contract(TOL + "TornadoEventLoop.watch_file", property="C13", replayable=False)
+    class tor_watch_file:
+        self_shape = TOR
+        params = dict(fd=Int, callback=Opaque("LoopCallback"))
+        result = Int
+        inline = _TOR_INLINE
+        raises = (ValueError,)
+        setup = staticmethod(_setup)
+        invariant = staticmethod(tor_inv)
+        notes = SCHEDULER_NOTES
+
+        def ensures(old, s, a, result):
+            st = cur()
+            adds = [ev for ev in st.trace if ev[0] == "add_handler"]
+            yield "one-handler-asked-of-the-ioloop-and-nothing-else", len(adds) == 1 and len(_sched_events(st.trace)) == 1
+            if len(adds) != 1:
+                return
+            yield "for-that-descriptor-becoming-readable", both(eq(adds[0][1], a.fd), adds[0][3] == _ioloop.IOLoop.READ)
+            yield "running-the-callback-inside-handle-exit-wrapped-so-that-the-idle-callbacks-follow-it", is_idle_wrapper_of(
+                adds[0][2], s, lambda w: is_closure(w, "TornadoEventLoop.watch_file.<handler>", self=s, callback=a.callback))
+            yield "a-fresh-handle", both(result == old._max_watch_handle + 1, neg(old._watch_handles.has(result)), s._max_watch_handle == result)
+            yield "that-stands-for-the-descriptor", both(s._watch_handles.has(result), eq(s._watch_handles.val(result), a.fd), s._loop.reg(a.fd))
+            yield "other-handles-untouched", same_map(s._watch_handles, old._watch_handles, but=result)
+            k = V.SInt(z3.Int("anyfd"))
+            yield "other-descriptors-untouched", mk_bool(z3.ForAll([k.e], V._zb(implies(neg(eq(k, a.fd)), eq(s._loop.reg(k), old._loop.reg(k))))))
+            yield "nothing-else-touched", tor_rest_untouched(old, s, "_watch_handles", "_loop")
+
+        def on_raise(old, s, a, exc):
+            # (tornado refuses a second handler for a descriptor: the IOLoop's own error passes through)
+            yield "only-a-descriptor-the-ioloop-already-handles-is-refused", old._loop.reg(a.fd)
+            yield "nothing-changed", tor_rest_untouched(old, s)
+
+    @contract(TOL + "TornadoEventLoop.watch_file.<handler>", property="C13", replayable=False)
+    class tor_watch_handler:
+        """What the IOLoop runs when the descriptor is readable (inside `_also_call_idle.<wrapper>`)."""
+        globals_ = dict(self=TOR, callback=Opaque("LoopCallback"))
+        params = dict(_fd=Int, _events=Int)
+        inline = _TOR_INLINE
+        callback_havoc = staticmethod(_AR._tor_havoc)
+        contract_overrides = _RUN_WRAPPER
+        raises = ()
+        notes = SCHEDULER_NOTES
+
+        def setup(st, self_obj, vals):
+            _setup(st, vals["g_self"], vals)
+            _AR._setup(st, vals["g_self"], vals)
+
+        def requires(a):
+            return tor_inv(a.g_self)
+
+        def ensures(a, result):
+            yield from _stops_like_handle_exit(a)
+            yield "class-invariant", tor_inv(a.g_self)
+
+    @contract(TOL + "TornadoEventLoop.remove_watch_file", property="C13", replayable=False)
+    class tor_remove_watch_file:
+        self_shape = TOR
+        params = dict(handle=Int)
+        result = Bool
+        setup = staticmethod(_setup)
+        invariant = staticmethod(tor_inv)
+        notes = SCHEDULER_NOTES
+
+        def ensures(old, s, a, result):
+            st = cur()
+            rms = [ev for ev in st.trace if ev[0] == "remove_handler"]
+            yield "reports-whether-the-handle-was-known", eq(result, old._watch_handles.has(a.handle))
+            yield "no-longer-known-so-removing-it-again-reports-failure", neg(s._watch_handles.has(a.handle))
+            if result:
+                fd = old._watch_handles.val(a.handle)
+                yield "its-descriptor-is-taken-from-the-ioloop-so-the-callback-never-runs", both(
+                    len(rms) == 1 and len(_sched_events(st.trace)) == 1, eq(rms[0][1], fd) if rms else False, neg(s._loop.reg(fd)))
+                k = V.SInt(z3.Int("anyfd"))
+                yield "other-descriptors-untouched", mk_bool(z3.ForAll([k.e], V._zb(implies(neg(eq(k, fd)), eq(s._loop.reg(k), old._loop.reg(k))))))
+            else:
+                yield "nothing-asked-of-the-ioloop", both(not _sched_events(st.trace), s._loop.reg is old._loop.reg)
+            yield "other-handles-untouched", both(same_map(s._watch_handles, old._watch_handles, but=a.handle), s._max_watch_handle == old._max_watch_handle)
+            yield "nothing-else-touched", tor_rest_untouched(old, s, "_watch_handles", "_loop")
